@@ -7,7 +7,7 @@ P = {
     "theorems": ["C12_errors_is_as_leaves", "C12_kind_table", "C12_same_status", "C12_F2_refuted",
                  "C12_never_success", "C12_never_success_stack", "C12_success_override_possible",
                  "C12_body_only_if_verbose", "C12_redirect_has_location", "C12_redirect_handler_response",
-                 "C12_www_authenticate_status", "C12_www_authenticate_has_header", "C12_F1_refuted",
+                 "C12_www_authenticate_status", "C12_www_authenticate_challenge", "C12_www_authenticate_has_header", "C12_F1_refuted",
                  "C12_F1_header_never_written", "C12_panic_response", "C12_nonvacuous"],
     "streams": [{
         "name": "translate", "pkg": "./internal/zzverif/c12", "test": "TestVerifC12",
@@ -27,7 +27,7 @@ P = {
             "errors.Join / multi-%w / custom Unwrap() []error, errorchain.ErrorChain with and without (adversarial) context) x "
             "scenario (error returned by the executor | handled by a REAL default/redirect/www_authenticate mechanism | panic with "
             "error or string value); observed: errors.Is for 10 targets, errors.As, both real translators, the three real service "
-            "stacks; non-trivial = the tree mixes >= 2 leaf kinds below a wrapper, or the scenario is not a plain error; "
+            "stacks, what the mechanism hands to ctx.AddHeaderForUpstream; non-trivial = the tree mixes >= 2 leaf kinds below a wrapper, or the scenario is not a plain error; "
             "distinct by hash of the generated input",
     "anchors": ["internal/handler/middleware/http/errorhandler/error_handler.go",
                 "internal/handler/middleware/http/errorhandler/options.go",
